@@ -411,6 +411,8 @@ impl<'a, T: RealNumber, M: Matrix<T>, K: Kernel<T, M::RowVector>> Optimizer<'a, 
             for i in Self::permutate(n) {
                 self.process(i, self.x.get_row(i), self.y.get(i), &mut cache);
                 loop {
+                    #[cfg(smartcore_verif)]
+                    crate::verif::tick("svc-reprocess");
                     self.reprocess(tol, &mut cache);
                     self.find_min_max_gradient();
                     if self.gmax - self.gmin < good_enough {
